@@ -211,6 +211,14 @@ class C08(runner.Prop):
         ents = s.entries()
         if len(s) != s.num_leaves:
             ctx.fail('inspect/len', f'{len(s)} vs {s.num_leaves}')
+        # sub-treespecs handed out by the inspection methods carry the parent's flags
+        subs = list(kids) + ([s.child(0), s.child(-1)] if n else [])
+        if any(k.none_is_leaf != s.none_is_leaf for k in subs):
+            ctx.fail('inspect/children_flags', f'{[k.none_is_leaf for k in subs]} vs {s.none_is_leaf}')
+        for k, km in zip(kids, node.children):      # a child that holds a custom node must still know the namespace
+            if any(c.kind == 'custom' for c in km.walk()) and k.namespace != s.namespace:
+                ctx.fail('inspect/children_namespace', f'{k.namespace!r} vs {s.namespace!r}: {k}')
+                break
         if s.is_leaf() != (node.kind == 'leaf') or s.is_leaf(strict=False) != (s.num_nodes == 1):
             ctx.fail('inspect/is_leaf', f'{s}')
         if optree.treespec_is_leaf(s) != s.is_leaf() or optree.treespec_is_strict_leaf(s) != s.is_leaf() \
